@@ -310,15 +310,39 @@ def differential(ob, name, seed):
     return res
 
 
+class _Budget(BaseException):
+    """raised by SIGALRM when one obligation exceeds its wall-clock budget (passes through `except Exception`)"""
+
+
 def _worker(args):
     name, tier, seed, do_diff = args
+    import signal
+
+    budget = int(os.environ.get("VERIF_OB_BUDGET_S", "420" if tier == "quick" else "2400"))
+
+    def on_alarm(signum, frame):
+        raise _Budget()
+
+    try:
+        signal.signal(signal.SIGALRM, on_alarm)
+        signal.alarm(budget)
+    except ValueError:
+        pass
+    blank = {"clauses": {}, "failures": [], "props": [], "funcs": [], "paths": 0, "vcs": 0, "covers": 0, "solver_s": 0,
+             "backends": {}, "kind": "P"}
     try:
         return run_obligation(name, tier, seed, do_diff)
+    except _Budget:
+        return dict(blank, name=name, status="undecided", wall_s=budget,
+                    notes=["wall-clock budget of %d s for one obligation exceeded" % budget])
     except Exception as e:  # noqa
-        return {"name": name, "status": "fault", "notes": ["worker exception %s: %s" % (type(e).__name__, e),
-                                                           traceback.format_exc()[-1500:]], "clauses": {},
-                "failures": [], "props": [], "funcs": [], "paths": 0, "vcs": 0, "covers": 0, "solver_s": 0,
-                "backends": {}, "kind": "P", "wall_s": 0}
+        return dict(blank, name=name, status="fault", wall_s=0,
+                    notes=["worker exception %s: %s" % (type(e).__name__, e), traceback.format_exc()[-1500:]])
+    finally:
+        try:
+            signal.alarm(0)
+        except ValueError:
+            pass
 
 
 def run_many(names, tier="quick", seed=0, jobs=None, do_diff=True):
